@@ -19,7 +19,14 @@ checks.update({
  "C14": dict(engine="sched", text="All schedules up to the preemption bound of Close against StoreLogs, a pending rotation, DeleteRange (head/tail), reads, stable operations, a second Close and a writer+reader mix; no panic, no deadlock, answers correct or ErrClosed, everything ErrClosed afterwards, rotation goroutine gone, handles released, acknowledged entries present after reopen.", ref="4/C14, 3.3", note=sched_note),
  "C20": dict(engine="seq", text="All sequences to the depth bound with AtomicCollectors built from the published definitions (undeclared names panic); counters compared after every step with the totals of the calls issued; plus the finite set of emitting call sites from go/ast.", ref="4/C20", note=seq_note),
 })
+enum_note = "Trusted base: the harness's own equality/reference code and the Go toolchain; the enumerated menus are stated in the evidence bounds and nothing outside them is claimed."
+checks.update({
+ "C12": dict(engine="enum", text="Boundary-value products through Encode/Decode and StoreLogs/GetLog, buffer-aliasing checks with a deterministic pool, codec-ID matrix across create/reopen.", ref="4/C12", note=enum_note),
+ "C15": dict(engine="enum", text="Size neighbourhoods (0, 64 KiB buffer, segment limit, 64 MiB maximum) x segment size x batch position: accepted implies readable before and after reopen, refused implies unchanged.", ref="4/C15", note=enum_note),
+ "C19": dict(engine="enum", text="Full product of source contents, batch sizes, store pairings and cancellation points through CopyLogs/CopyStable, destination compared with source.", ref="4/C19", note=enum_note),
+})
 technique = {
+ "enum": "bounded-exhaustive enumeration of the stated input/configuration product on the real code against a reference",
  "seq": "bounded-exhaustive enumeration of operation sequences on the real code against a reference model",
  "sched": "stateless model checking: preemption-bounded exhaustive schedule exploration under a cooperative scheduler",
  "seq+crash": "bounded-exhaustive operation sequences against a reference model plus explicit-state model checking of crash images",
@@ -35,6 +42,7 @@ m = {
  "engines": [
   {"name": "crash", "path": "harness/core/crash.go", "serves_properties": ["C01", "C02", "C03", "C04", "C08", "C13"], "kind_free_text": "explicit-state search over durable disk images with exhaustive crash-image enumeration"},
   {"name": "seq", "path": "harness/core/seq.go", "serves_properties": ["C05", "C08", "C13", "C20"], "kind_free_text": "bounded-exhaustive operation sequences vs reference model, simulated and real stacks"},
+  {"name": "enum", "path": "harness/worker/codec.go, harness/worker/migrate.go", "serves_properties": ["C12", "C15", "C19"], "kind_free_text": "exhaustive product enumeration of boundary menus"},
   {"name": "sched", "path": "harness/core/sched.go", "serves_properties": ["C06", "C14"], "kind_free_text": "cooperative scheduler + preemption-bounded DFS over rewritten sources"},
  ],
  "checks": [],
